@@ -1,4 +1,5 @@
 import WfProofs.SqliteConn
+import WfProofs.SqliteLock
 /-!
 # C21 — the single-connection SQLite store keeps working after use
 
@@ -90,7 +91,8 @@ theorem C21_modes_agree_guarded (t : Table) (hctor : t.ctorOpensShared = true) {
 /-- the table of the tree before the repair (finding F19): the state store's
 sections close whatever `_connect` returned -/
 def f19Table : Table :=
-  { wsShared := true, ssShared := true, createPassesShared := true, ctorOpensShared := true, unknowns := 0,
+  { wsShared := true, ssShared := true, createPassesShared := true, ctorOpensShared := true, lockPerStore := true,
+    unknowns := 0,
     secs := [ ⟨"ws.query", 0, .provider, false, ⟨false, false, true, false, false⟩, ⟨true, true, true, false, false⟩⟩,
               ⟨"ss._load_state", 1, .provider, true, ⟨true, true, true, false, false⟩, ⟨true, true, true, false, false⟩⟩ ],
     ops := [(0, "query", ["ws.query"]), (1, "get", ["ss._load_state"])], staticOps := [] }
@@ -190,3 +192,45 @@ theorem C21_percall_no_leak {C V : Type} (m : Mode) (sem : Sem C V) (ps : List (
 
 /-- non-vacuity: the per-call run of the demo history opens (and closes) connections -/
 example : (runAll table .perCall demoSem demoHistory (init table .perCall 0)).1.closed = 6 := by decide
+
+/-! ## the locks of the state stores (an open `edit_state` block and the other stores) -/
+
+/-- Checked on the current source: every locking section of `SqliteStateStore`
+(`set_state`, `edit_state`, and `set` / `clear` through them) takes one lock, and that
+lock is created by the store object for itself — it is not handed in with the
+connection and does not depend on the connection mode. -/
+theorem C21_lock_per_store : table.lockPerStore = true := by decide
+
+/-- **C21, lock part.** Whichever state-store objects were handed the shared
+connection (all of them in single-connection mode, none with per-call connections):
+every schedule of lock requests and releases, by any tasks on any store objects, is
+answered the same way.  A request that is granted — at once or after a hand-over —
+with per-call connections is granted at the same point on the single connection. -/
+theorem C21_locks_modes_agree : LocksAgree table :=
+  locksAgree_of_perStore table C21_lock_per_store
+
+/-- An open `edit_state` block of one store object never delays an operation on
+another store object: the request is granted at once when nobody holds or awaits
+that object's own lock, whatever else is held (same run or not, any connection). -/
+theorem C21_other_store_never_waits (stores : List Bool) (s : LSt) (task obj : Nat) (hobj : obj < stores.length)
+    (hfree : ∀ p ∈ s.held ++ s.waiting, p.1 ≠ obj + 1) :
+    (lockStep table stores (.acq task obj) s).2 = .got :=
+  acq_free_perStore table C21_lock_per_store stores s task obj hobj hfree
+
+/-- non-vacuity: task 0 opens an edit on store 0 and, inside it, writes store 1
+(nested); task 1 queues for store 0 meanwhile and gets it at the hand-over; same
+answers with and without the shared connection -/
+example :
+    (runLocks table [true, true] [.acq 0 0, .acq 1 0, .acq 0 1, .rel 0 1, .rel 0 0, .rel 1 0, .rel 1 0, .acq 2 5] {}).2 =
+      [.got, .wait, .got, .next none, .next (some 1), .next none, .notHeld, .noStore] ∧
+    (runLocks table [false, false] [.acq 0 0, .acq 1 0, .acq 0 1, .rel 0 1, .rel 0 0, .rel 1 0, .rel 1 0, .acq 2 5] {}).2 =
+      [.got, .wait, .got, .next none, .next (some 1), .next none, .notHeld, .noStore] := by decide
+
+/-- Sensitivity: if the lock is not the store object's own but comes with the shared
+connection, the property is false — hold store 0's `edit_state` open and write store 1
+from inside it: granted with per-call connections, queued behind itself (for ever) on
+the single connection. -/
+theorem C21_shared_lock_refutes (t : Table) (h : t.lockPerStore = false) : ¬ LocksAgree t := by
+  intro hagree
+  have h1 := hagree [true, true] [false, false] rfl [.acq 0 0, .acq 0 1]
+  simp [runLocks, lockStep, lockOf, h] at h1
